@@ -24,7 +24,13 @@ AllKinds == << "nil", "bool", "int", "int_neg", "int8", "int64", "uint", "uint8"
                "ptr_map", "ptr_array", "ptr_str", "ptr_int", "nil_func", "nilptr_time", "ptr_time", "struct_embedded_nil", "slice_stringer", "slice_ptr_struct", "func_returns_nilfunc", "nilptr_map",
                \* a float NaN and a map with a NaN key; a comparable struct that holds a slice in an interface field (not hashable
                \* at run time); a nil pointer whose type implements fmt.Stringer; a multi-byte string; a small int above 1
-               "float_nan", "map_float_nan", "struct_iface_slice", "nilptr_stringer", "ptr_stringer", "str_mb", "int3" >>
+               "float_nan", "map_float_nan", "struct_iface_slice", "nilptr_stringer", "ptr_stringer", "str_mb", "int3",
+               \* nil pointers whose types implement HTMLer / Interface() / ToPath() with VALUE receivers; structs that promote a
+               \* method from a nil embedded pointer / interface; a function taking a fixed-size array; a function whose last
+               \* parameter is a defined type over HelperContext; a typed nil partial feeder; a helper that renders a template
+               \* with its own helper context; a slice shared with a function that shortens it
+               "nilptr_htmler", "nilptr_interfaceable", "nilptr_pathable", "slice_nilptr_pathable", "struct_promotes_nil_ptr", "struct_promotes_nil_iface",
+               "func_array3", "func_myhc", "nil_feeder", "func_rerender", "ptr_slice_shared", "func_shrink_shared" >>
 \* a smaller set for the third variable of three-variable forms
 ValueKinds == << "nil", "int", "str", "float64", "bool", "slice_any", "map_str_any", "struct", "ptr_struct", "func0" >>
 KindSet(s) == {s[i] : i \in 1..Len(s)}
@@ -73,6 +79,10 @@ FormsOf(fam) ==
            [n |-> "nilfieldptrmethod", vars |-> 1, src |-> E(<<"a", ".", "NilKid", ".", "Shout", "(", ")">>)],
            [n |-> "promoted", vars |-> 1, src |-> E(<<"a", ".", "Inner">>)],
            [n |-> "funcfield", vars |-> 1, src |-> E(<<"a", ".", "Fn", "(", ")">>)],
+           [n |-> "stringmethod", vars |-> 1, src |-> E(<<"a", ".", "String", "(", ")">>)],
+           [n |-> "methodvalue", vars |-> 1, src |-> C(<<"let", " ", "m", " ", "=", " ", "a", ".", "Hello">>) \o E(<<"m", "(", ")">>)],
+           \* the loop's collection is shortened by a call in its body
+           [n |-> "shrinkloop", vars |-> 2, src |-> E(<<"for", " ", "(", "v", ")", " ", "in", " ", "a", " ", "LBR", " ", "%>", "<%=", " ", "v", " ", "%>", "<%", " ", "b", "(", ")", " ", "%>", "<%", " ", "RBR">>)],
            [n |-> "iterate", vars |-> 1, src |-> E(<<"for", " ", "(", "k", ",", " ", "v", ")", " ", "in", " ", "a", " ", "LBR", " ", "%>", "<%=", " ", "k", " ", "%>", "<%=", " ", "v", " ", "%>", "<%", " ", "RBR">>)],
            [n |-> "iterfield", vars |-> 1, src |-> E(<<"for", " ", "(", "v", ")", " ", "in", " ", "a", ".", "Kids", " ", "LBR", " ", "%>", "<%=", " ", "v", ".", "Name", " ", "%>", "<%", " ", "RBR">>)] }
     [] fam = "call" ->
@@ -95,7 +105,9 @@ FormsOf(fam) ==
                 [n |-> "groupiter", vars |-> 2, src |-> E(<<"for", " ", "(", "g", ")", " ", "in", " ", "groupBy", "(", "a", ",", " ", "b", ")", " ", "LBR", " ", "%>", "<%=", " ", "len", "(", "g", ")", " ", "%>", "<%", " ", "RBR">>)],
                 [n |-> "cforblock", vars |-> 1, src |-> C(<<"contentFor", "(", "a", ")", " ", "LBR", " ", "%>", "x", "<%", " ", "RBR">>) \o E(<<"contentOf", "(", "a", ")">>)],
                 [n |-> "cofdata", vars |-> 1, src |-> C(<<"contentFor", "(", "QUOT", "n", "QUOT", ")", " ", "LBR", " ", "%>", "x", "<%", " ", "RBR">>) \o E(<<"contentOf", "(", "QUOT", "n", "QUOT", ",", " ", "a", ")">>)],
-                [n |-> "partialdata", vars |-> 1, src |-> E(<<"partial", "(", "QUOT", "p", "QUOT", ",", " ", "a", ")">>)] }
+                [n |-> "partialdata", vars |-> 1, src |-> E(<<"partial", "(", "QUOT", "p", "QUOT", ",", " ", "a", ")">>)],
+                \* the partial feeder of the context is whatever a is
+                [n |-> "setfeeder", vars |-> 1, src |-> C(<<"let", " ", "partialFeeder", " ", "=", " ", "a">>) \o E(<<"partial", "(", "QUOT", "p", "QUOT", ")">>)] }
     [] fam = "misc" ->
          { [n |-> "emit", vars |-> 1, src |-> E(<<"a">>)],
            [n |-> "cond", vars |-> 1, src |-> E(<<"if", " ", "(", "a", ")", " ", "LBR", " ", "%>", "T", "<%", " ", "RBR", " ", "else", " ", "LBR", " ", "%>", "F", "<%", " ", "RBR">>)],
@@ -105,6 +117,21 @@ FormsOf(fam) ==
            [n |-> "arrlen", vars |-> 2, src |-> E(<<"len", "(", "[", "a", ",", " ", "b", "]", ")">>)],
            [n |-> "ret", vars |-> 1, src |-> C(<<"let", " ", "f", " ", "=", " ", "fn", "(", ")", " ", "LBR", " ", "return", " ", "a", " ", "RBR">>) \o E(<<"f", "(", ")">>)],
            [n |-> "concat", vars |-> 1, src |-> E(<<"QUOT", "s", "QUOT", " ", "+", " ", "a">>)],
+           \* hash literals whose keys are keywords or other tokens that are not names
+           [n |-> "hashkw:let", vars |-> 0, src |-> E(<<"LBR", "let", ":", " ", "1", ",", " ", "b", ":", " ", "2", "RBR">>)],
+           [n |-> "hashkw:for", vars |-> 0, src |-> E(<<"LBR", "a", ":", " ", "1", ",", " ", "for", ":", " ", "2", "RBR">>)],
+           [n |-> "hashkw:if", vars |-> 0, src |-> E(<<"LBR", "if", ":", " ", "1", "RBR">>)],
+           [n |-> "hashkw:return", vars |-> 0, src |-> E(<<"LBR", "return", ":", " ", "1", ",", " ", "b", ":", " ", "2", "RBR">>)],
+           [n |-> "hashkw:fn", vars |-> 0, src |-> E(<<"LBR", "fn", ":", " ", "1", "RBR">>)],
+           [n |-> "hashkw:true", vars |-> 0, src |-> E(<<"LBR", "true", ":", " ", "1", ",", " ", "nil", ":", " ", "2", "RBR">>)],
+           [n |-> "hashkw:num", vars |-> 0, src |-> E(<<"LBR", "1", ":", " ", "1", ",", " ", "b", ":", " ", "2", "RBR">>)],
+           [n |-> "hashkw:in", vars |-> 0, src |-> E(<<"LBR", "in", ":", " ", "1", ",", " ", "else", ":", " ", "2", ",", " ", "break", ":", " ", "3", "RBR">>)],
+           [n |-> "hashkw:idx", vars |-> 0, src |-> E(<<"LBR", "let", ":", " ", "1", "RBR", "[", "QUOT", "let", "QUOT", "]">>)],
+           \* collections made to contain themselves (rendered in a process of their own: a runaway recursion ends the process)
+           [n |-> "iso:selfarr", vars |-> 0, src |-> C(<<"let", " ", "x", " ", "=", " ", "[", "1", "]">>) \o C(<<"x", "[", "0", "]", " ", "=", " ", "x">>) \o E(<<"x">>)],
+           [n |-> "iso:selfhash", vars |-> 0, src |-> C(<<"let", " ", "h", " ", "=", " ", "LBR", "k", ":", " ", "1", "RBR">>) \o C(<<"h", "[", "QUOT", "k", "QUOT", "]", " ", "=", " ", "h">>) \o E(<<"h">>) \o E(<<"toJSON", "(", "h", ")">>)],
+           [n |-> "iso:mutual", vars |-> 0, src |-> C(<<"let", " ", "x", " ", "=", " ", "[", "1", "]">>) \o C(<<"let", " ", "y", " ", "=", " ", "[", "x", "]">>) \o C(<<"x", "[", "0", "]", " ", "=", " ", "y">>) \o E(<<"y">>) \o E(<<"len", "(", "x", ")">>)],
+           [n |-> "iso:selfarrjson", vars |-> 0, src |-> C(<<"let", " ", "x", " ", "=", " ", "[", "1", "]">>) \o C(<<"x", "[", "0", "]", " ", "=", " ", "x">>) \o E(<<"toJSON", "(", "x", ")">>) \o E(<<"inspect", "(", "x", ")">>)],
            [n |-> "forval", vars |-> 1, src |-> E(<<"for", " ", "(", "v", ")", " ", "in", " ", "[", "a", "]", " ", "LBR", " ", "%>", "<%=", " ", "v", " ", "%>", "<%", " ", "RBR">>)] }
 
 \* ---- family "nested": expression forms composed to depth two, outer(a := (inner(a, c)), b); explored by simulation
